@@ -64,10 +64,13 @@ def verdict(ctx, props, witness=None, sample=None):
     c = conj(x for _, x in conds)
     if c is True:
         out = {'k': 'ok', 'trivial': True}
-        if sample is not None and ctx.want_sample:
+        if ctx.want_sample:
             m = ctx.model()
             if m is not None:
-                out['sample'] = sample(m)
+                if sample is not None:
+                    out['sample'] = sample(m)
+                if witness is not None:
+                    out['wsample'] = _safe(witness, m)
         return out
     if c is False:
         r = ctx.check()
@@ -75,10 +78,13 @@ def verdict(ctx, props, witness=None, sample=None):
         r = ctx.check(z3.Not(c))
     if r == z3.unsat:
         out = {'k': 'ok'}
-        if sample is not None and ctx.want_sample:
+        if ctx.want_sample:
             m = ctx.model()
             if m is not None:
-                out['sample'] = sample(m)
+                if sample is not None:
+                    out['sample'] = sample(m)
+                if witness is not None:
+                    out['wsample'] = _safe(witness, m)
         return out
     if r == z3.unknown:
         return {'k': 'unknown', 'why': 'end-of-path query'}
@@ -95,6 +101,13 @@ def verdict(ctx, props, witness=None, sample=None):
     if isinstance(w, dict) and 'prio' in w:
         out['prio'] = w.pop('prio')
     return out
+
+
+def _safe(fn, m):
+    try:
+        return fn(m)
+    except Exception:
+        return None
 
 
 # ------------------------------------------------------------------ one path
@@ -155,6 +168,7 @@ class Agg:
         self.skips = {}
         self.cuts = {}
         self.stopped_early = 0
+        self.wsamples = []
 
     def add(self, out, ndec):
         k = out['k']
@@ -178,12 +192,15 @@ class Agg:
             self.flags[f] = self.flags.get(f, 0) + 1
         if 'sample' in out and len(self.samples) < 6:
             self.samples.append({'choices': out.get('choices'), 'instance': out['sample']})
+        if out.get('wsample') is not None and len(self.wsamples) < 3:
+            self.wsamples.append(out['wsample'])
 
     def merge(self, o):
         for k, v in o.counts.items():
             self.counts[k] = self.counts.get(k, 0) + v
         self.viols.extend(o.viols[:max(0, 400 - len(self.viols))])
         self.samples.extend(o.samples[:max(0, 6 - len(self.samples))])
+        self.wsamples.extend(o.wsamples[:max(0, 3 - len(self.wsamples))])
         self.errors.extend(o.errors[:max(0, 5 - len(self.errors))])
         for d, od in ((self.unmodelled, o.unmodelled), (self.flags, o.flags), (self.skips, o.skips), (self.cuts, o.cuts)):
             for k, v in od.items():
